@@ -192,9 +192,21 @@ class ExprTr:
     # --- calls
     def tr_Call(self, node):
         fn = ast.unparse(node.func)
+        # x.astype(np.int32) / x.astype(np.float32): truncation / identity on the exact value
+        if isinstance(node.func, ast.Attribute) and node.func.attr == "astype" and len(node.args) == 1 \
+                and not node.keywords:
+            ty = ast.unparse(node.args[0])
+            c, s = self.tr(node.func.value)
+            if ty in ("np.int32", "np.int64", "int", "np.intp"):
+                return (c, "Z") if s == "Z" else (f"(Qtrunc {to_q(c, s)})", "Z")
+            if ty in ("np.float32", "np.float64", "float"):
+                return (to_q(c, s), "Q")
+            raise Untranslatable(f"astype({ty})")
         if node.keywords:
             raise Untranslatable(f"keyword arguments in {ast.unparse(node)}")
         args = [self.tr(a) for a in node.args]
+        if fn in ("np.maximum", "np.minimum") and len(args) == 2:
+            fn = fn[3:6]
 
         def one():
             if len(args) != 1:
